@@ -378,9 +378,23 @@ func (V *Verifier) DecodeRT(mt *MsgType, enc *EncInfo, props []string) []*Obliga
 			s2 := s.clone()
 			s2.assume(errNilOf(res))
 			x.oblige(s2, "ensures", "consumed-exactly@"+tag, Eq(s2.get(bo).Seq, r), "decoding consumes exactly the message's bytes and leaves the rest")
+			wb := V.writtenBackFields(mt)
 			for i := 0; i < mt.Struct.NumFields(); i++ {
 				f := mt.Struct.Field(i)
+				// the decoded message is compared with the ORIGINAL message; only the fields the encoder computes
+				// itself (pinned as written-back in the layout) and parts it materialised from nil are compared
+				// with what the encoder left in the object
 				want, ok := path.Post[i]
+				wantSt := path.PostSt
+				if orig, has := enc.Fields[i]; has && !wb[f.Name()] {
+					useOrig := true
+					if _, isnil := dynOf(orig); isnil != nil && path.PostSt.implied(isnil) == 1 {
+						useOrig = false // nil part: the encoder wrote (and stored) its zero value
+					}
+					if useOrig {
+						want, wantSt, ok = orig, enc.Init, true
+					}
+				}
 				if !ok {
 					if _, isStruct := f.Type().Underlying().(*types.Struct); isStruct && !hasCodecMethods(f.Type()) {
 						continue
@@ -392,7 +406,7 @@ func (V *Verifier) DecodeRT(mt *MsgType, enc *EncInfo, props []string) []*Obliga
 				if !ok {
 					got = x.load(s2, VFieldPtr{Obj: q, Idx: i}, nil, f.Type())
 				}
-				x.oblige(s2, "ensures", fmt.Sprintf("field(%s)@%s", f.Name(), tag), x.fieldEq(s2, got, path.PostSt, want), "decoded field equals the encoded one")
+				x.oblige(s2, "ensures", fmt.Sprintf("field(%s)@%s", f.Name(), tag), x.fieldEq(s2, got, wantSt, want), "decoded field equals the original one")
 			}
 		}
 		x.execAll(st)
@@ -784,4 +798,19 @@ func (V *Verifier) allocConstsOfTag(tag *Term) (int64, int64) {
 		return maxAllocA + 1, maxAllocB + 1
 	}
 	return a, b
+}
+
+// writtenBackFields: the fields the pinned layout lists as written back by Encode (self-computed length / checksum).
+func (V *Verifier) writtenBackFields(mt *MsgType) map[string]bool {
+	out := map[string]bool{}
+	if ly := V.layoutFor(mt); ly != nil {
+		for _, p := range ly.Paths {
+			for _, e := range p.Posts {
+				if e.Kind == "bin" && e.Args[0].Kind == "ident" {
+					out[e.Args[0].Name] = true
+				}
+			}
+		}
+	}
+	return out
 }
